@@ -216,8 +216,8 @@ def c04(tier, replay=None):
                  ("twin-d2", dict(SCRIPT="ScriptTwin", MaxHist=2, MaxId=2, CODES='{"a", "b"}', NAMES='{"_x", "_y", "bad"}', CATS='{"NULL", "", "k"}', MaxNames=1, MaxPkt=1), "states"),
                  ("two-cifs-d4", dict(CIFS='{"c1", "c2"}', MaxHist=4, CSLOTS="MCCSlots2", NAMES='{"_x", "_X", "bad"}', CODES='{"a", "A"}', CATS='{"NULL", ""}', MaxNames=1, MaxPkt=1), "states")]
     else:
-        plans = [("main-d6", dict(MaxHist=6), "states"),
-                 ("nested-d4", dict(SCRIPT="ScriptNest", MaxHist=4, MaxId=4, MaxDepth=3, CODES='{"a", "b", "B", "bad"}'), "states"),
+        plans = [("main-d5", dict(MaxHist=5), "states"),
+                 ("nested-d3", dict(SCRIPT="ScriptNest", MaxHist=3, MaxId=4, MaxDepth=3, CODES='{"a", "b", "B", "bad"}'), "states"),
                  ("loop-d3", dict(SCRIPT="ScriptLoop", MaxHist=3, MaxLast=4, NAMES='{"_x", "_X", "_y", "_z", "bad"}', VALS='{"u", "s1", "L"}'), "states"),
                  ("parse-d5", dict(DOCS="MCDocs", MaxHist=5, MaxId=3, CSLOTS="MCCSlots2", LSLOTS="MCLSlots1", CATS='{"", "k"}', NAMES='{"_x", "_X", "_y", "bad"}', MaxNames=1, MaxPkt=1, PVALS='{"s1"}'), "states"),
                  ("twin-d3", dict(SCRIPT="ScriptTwin", MaxHist=3, MaxId=2, CODES='{"a", "b"}', NAMES='{"_x", "_y", "bad"}', CATS='{"NULL", "", "k"}', MaxNames=1, MaxPkt=1), "states"),
@@ -269,10 +269,11 @@ def c06(tier, replay=None):
     if tier == "quick":
         plans = [("loop3-d4", dict(itr_only, SCRIPT="ScriptLoop", MaxHist=4, NAMES='{"_x", "_y", "_z"}', MaxPkt=2), "states")]
     else:
-        plans = [("loop3-d8", dict(itr_only, SCRIPT="ScriptLoop", MaxHist=8, NAMES='{"_x", "_y", "_z"}', MaxPkt=2), "states"),
-                 ("loop1-d6", dict(itr_only, SCRIPT="ScriptLoop1", MaxHist=6, NAMES='{"_x", "_X", "_y", "_z"}', MaxPkt=2, PVALS='{"s1", "s2", "u"}'), "states")]
+        plans = [("loop3-d6", dict(itr_only, SCRIPT="ScriptLoop", MaxHist=6, NAMES='{"_x", "_y", "_z"}', MaxPkt=2), "states"),
+                 ("loop1-d5", dict(itr_only, SCRIPT="ScriptLoop1", MaxHist=5, NAMES='{"_x", "_X", "_y", "_z"}', MaxPkt=2, PVALS='{"s1", "s2", "u"}'), "states")]
     for name, params, mode in plans:
-        cov, oc, jobs = run_config(rep, binary, name, params, mode, rnd=rnd)
+        # the thorough graphs have 1e5 states and more: TLC checks the properties on all of them, a seeded sample is replayed
+        cov, oc, jobs = run_config(rep, binary, name, params, mode, rnd=rnd, max_states=None if tier == "quick" else 60000)
         covs.append(cov); opcov.update(oc); alljobs += jobs
         log("[C06 %s] %s" % (name, {k: cov[k] for k in ("states_emitted", "edges_emitted", "jobs", "replayed_ok", "mismatching_jobs", "replay_wall_s")}))
     return finish(rep, covs, opcov, alljobs)
